@@ -1,5 +1,5 @@
 ----------------------------- MODULE MpscQueue -----------------------------
-(* DRAFT (round 0).  Literal model of may_queue/src/mpsc.rs push()/pop().
+(* Literal model of may_queue/src/mpsc.rs push()/pop().
    One action per atomic operation; pc labels = hook site names.
    Blocks are numbered 0,1,2..; block k covers indices k*B .. k*B+B-1 and its
    `next` pointer is installed when nextSet[k] = TRUE.  tail is the packed word
